@@ -1472,8 +1472,38 @@ def shrink(kind, case):
 
 
 # ------------------------------------------------------------------ driver
+def shadowing_programs():
+    """directed programs: an inner binder re-uses the name of an enclosing binder and the outer variable is read
+    again after the inner expression (a binder that forgets to open its own scope overwrites the outer value)"""
+    def lit(t, v):
+        return ['lit', t, v]
+    s12 = ['seq', lit('integer', '1'), lit('integer', '2')]
+    s56 = ['seq', lit('integer', '5'), lit('integer', '6')]
+    out = []
+    for name in ('x', 'k'):
+        var = ['var', name]
+        inners = {
+            'some': ['some', [[name, s56]], ['vcmp', 'eq', var, lit('integer', '6')]],
+            'every': ['every', [[name, s56]], ['vcmp', 'gt', var, lit('integer', '0')]],
+            'for': ['for', [[name, s56]], ['arith', '*', var, lit('integer', '10')]],
+            'some2': ['some', [['w', s12], [name, s56]], ['vcmp', 'lt', ['var', 'w'], var]],
+        }
+        for iname, inner in inners.items():
+            body = ['seq', inner, var]
+            out.append((['for', [[name, s12]], body], 'for'))
+            out.append((['some', [[name, s12]], ['vcmp', 'eq', ['call', 'count', ['seq', inner, var, var]], lit('integer', '3')]], 'some'))
+            out.append((['every', [[name, s12]], ['gcmp', '=', ['seq', inner, var], var]], 'every'))
+            out.append((['for', [[name, s12], ['j', ['seq', inner, var]]], ['seq', ['var', 'j'], var]], 'for'))
+            out.append((['filter', s12, ['gcmp', '=', ['for', [[name, ['ctx']]], ['seq', inner, var]], ['ctx']]], 'filter'))
+    return out
+
+
 def run(h):
     r = h.rng
+    if h.shard == 0:
+        for e, root in shadowing_programs():
+            for v in ('2.0', '3.1'):
+                h.case('prog', {'v': v, 'e': e, 'vars': {}, 'root': root})
     for _ in range(h.n(16000)):
         h.case('prog', gen_program(r))
     for _ in range(h.n(3000)):
